@@ -325,6 +325,18 @@ def slot_reuse_scenario(draw, conf):
     for o in conf["services"]:
         if o[0] != S[0] and draw(st.booleans()):
             ev.append(["X", cid, o[0], "OK", "cur"])
+    if draw(st.booleans()):
+        # somebody else was asked about the same services and is gone before any of them answered
+        lv = cid + 1
+        ev += [["C", lv, "10.9.9.9", 1111], ["N", lv, "pre.example.org"], ["u", lv, "pre"], ["n", lv, "Pre"], ["U", lv, "pre", "pre client"],
+               ["P", lv, "+x other pw"]]
+        how_ = draw(st.sampled_from(["D", "T", "C", "NO"]))
+        if how_ == "C":
+            ev += [["C", lv, "10.9.9.8", 1112], ["D", lv]]
+        elif how_ == "NO":
+            ev += [["X", lv, S[0], "NO go away", "cur"], ["D", lv]]
+        else:
+            ev += [[how_, lv]]
     ev.append(["X", cid, S[0], draw(st.sampled_from(["OK", "MORE say friend", "MORE say friend", "AGAIN once more", "MORE "])), "cur"])
     free = [x for x in SVC_POOL if x not in [y[0] for y in conf["services"]]]
     T = [draw(st.sampled_from(free + [S[0]])), draw(st.sampled_from(["login", "login", "combined", "login-ipr", "dronecheck"]))]
